@@ -130,6 +130,12 @@ def run(chk, tier):
         base_key = "|".join(d["input"].split("|")[:2])
         key = {"kind": pi["kind"], "axes": axes, "image": d["image"], "scope": pi["scope"], "file": pi["file"],
                "cfg": d["cfg"], "first": d["first"]}
+        gk = gid_of.get(pi["file"])
+        if gk is not None:
+            if pi["kind"] == "exit":
+                key["origins"] = [i.origin for i in gk.inputs]
+            else:
+                key["origin"] = next((i.origin for i in gk.inputs if i.name == pi["file"]), None)
         if pi["kind"] == "msg":
             # what kind of difference (identifies the finding; the verdict itself is TLC's)
             key["sig"] = msg_signature(runner, base_key, evs[d["first"]]["digest"], evs[d["cfg"]]["digest"])
@@ -295,7 +301,11 @@ Trace corruption (selftest() below): recorded trace accepted; one digest word fl
 the axis (strict cfg: invariant Functional); gc = {-Wno-gc, k=7} -> invariant ValidCfgs; digest with 3 words -> ValidCfgs; aslr = "maybe"
 -> ValidCfgs; a trace not ordered by distance from the baseline -> invariant NearestFirst.
 Monitor model: ObsMC.cfg 22,621 states (6 s), ObsMC5.cfg 2,000,719 states (41 s); probe ObsMCProbe.cfg violates NeverRejects as expected.
-Unchanged tree: held (known findings only) with VERIF_SEED 20261004, 777, 1, 42, 31337, 90210.
+Unchanged tree: held (known findings only) with VERIF_SEED 20261004, 777, 1, 42, 31337, 90210.  Findings met on the unchanged tree:
+.java depends on symbol addresses (every seed); code outputs of the 2nd+ file of a batch (every seed); note numbers not reset per file
+(seeds 31337, 90210: ill-typed generated programs with `vbad4'); thorough tier: bug1247.as crashes or succeeds depending on the forced
+schedule (out-of-bounds read with an unresolved forward constant number), abcheck1.as diagnostics depend on ASLR.  All reproduced by hand
+(two commands + diff) and recorded in known_findings.jsonl; candidate patches hooks/fix-C08-*.diff for three of them.
 False alarms met and removed while building: (1) a fatal error ("too many errors", "Program fault" of the Java generator) ends a
 multi-file invocation, the remaining files are never started -> such files are not observed for that run; (2) the exit status of a batch
 that ends by a fatal error is 1, not the sum of the error counts -> batch and separate runs are compared on zero / non-zero only;
